@@ -633,9 +633,11 @@ inductive CastRel (segs : List Nat) (t : SegType) : Mask → Mask → Prop
       (hsum : ∀ pl ∈ ps, ∀ ch ∈ pl, sumNat ch ≤ 1)
       (hlab : mapE (fun pl => mapE (combinePixel segs) pl) ps = .ok lab) :
       CastRel segs t (.intStack ps) (.intLabel lab)
-  | fltLabelF (ps : List (List Rat)) (ht : t = .fractional) (hr : ∀ pl ∈ ps, ∀ x ∈ pl, 0 ≤ x ∧ x ≤ 1) :
+  | fltLabelF (ps : List (List Rat)) (ht : t = .fractional) (hr : ∀ pl ∈ ps, ∀ x ∈ pl, 0 ≤ x ∧ x ≤ 1)
+      (hone : segs.length ≤ 1) :
       CastRel segs t (.fltLabel ps) (.fltLabel ps)
-  | fltLabelB (ps : List (List Rat)) (ht : t ≠ .fractional) (hbin : ∀ pl ∈ ps, ∀ x ∈ pl, x = 0 ∨ x = 1) :
+  | fltLabelB (ps : List (List Rat)) (ht : t ≠ .fractional) (hbin : ∀ pl ∈ ps, ∀ x ∈ pl, x = 0 ∨ x = 1)
+      (hdesc : (∃ pl ∈ ps, ∃ x ∈ pl, x = 1) → 1 ∈ segs) :
       CastRel segs t (.fltLabel ps) (.intLabel (ps.map (·.map ratToNat)))
   | fltStackF (ps : List (List (List Rat))) (ht : t = .fractional)
       (hch : ∀ pl ∈ ps, ∀ ch ∈ pl, ch.length = segs.length ∧ ∀ x ∈ ch, 0 ≤ x ∧ x ≤ 1) :
@@ -794,26 +796,37 @@ theorem castMask_rel (segs : List Nat) (t : SegType) (m arr : Mask) (ov : Overla
             have hr := not_any₂ ps (fun x => x < 0 ∨ 1 < x) hrange
             split at hv
             · rename_i ht
-              simp only [Except.ok.injEq, Prod.mk.injEq] at hv
-              obtain ⟨rfl, rfl⟩ := hv
-              have := castLabelmap_other segs t _ (by intro ps' hc; cases hc) _ _ _ h
-              subst this
-              apply CastRel.fltLabelF ps ht
-              intro pl hpl x hx
-              have := hr pl hpl x hx
-              constructor
-              · by_contra hc; exact this (Or.inl (lt_of_not_ge hc))
-              · by_contra hc; exact this (Or.inr (lt_of_not_ge hc))
+              split at hv
+              · cases hv
+              · rename_i hone
+                simp only [Except.ok.injEq, Prod.mk.injEq] at hv
+                obtain ⟨rfl, rfl⟩ := hv
+                have := castLabelmap_other segs t _ (by intro ps' hc; cases hc) _ _ _ h
+                subst this
+                refine CastRel.fltLabelF ps ht ?_ (by omega)
+                intro pl hpl x hx
+                have := hr pl hpl x hx
+                constructor
+                · by_contra hc; exact this (Or.inl (lt_of_not_ge hc))
+                · by_contra hc; exact this (Or.inr (lt_of_not_ge hc))
             · rename_i ht
               split at hv
               · cases hv
               · rename_i hbin
                 have hb := not_any₂ ps (fun x => 0 < x ∧ x < 1) hbin
-                simp only [Except.ok.injEq, Prod.mk.injEq] at hv
-                obtain ⟨rfl, rfl⟩ := hv
-                have := castLabelmap_other segs t _ (by intro ps' hc; cases hc) _ _ _ h
-                subst this
-                exact CastRel.fltLabelB ps ht (fun pl hpl x hx => float_binary x (hr pl hpl x hx) (hb pl hpl x hx))
+                split at hv
+                · cases hv
+                · rename_i hdesc
+                  simp only [Except.ok.injEq, Prod.mk.injEq] at hv
+                  obtain ⟨rfl, rfl⟩ := hv
+                  have := castLabelmap_other segs t _ (by intro ps' hc; cases hc) _ _ _ h
+                  subst this
+                  refine CastRel.fltLabelB ps ht
+                    (fun pl hpl x hx => float_binary x (hr pl hpl x hx) (hb pl hpl x hx)) ?_
+                  rintro ⟨pl, hpl, x, hx, rfl⟩
+                  by_contra hns
+                  apply hdesc
+                  exact ⟨List.any_eq_true.mpr ⟨pl, hpl, List.any_eq_true.mpr ⟨1, hx, by simp⟩⟩, hns⟩
         | fltStack ps =>
           simp only [castValues] at hv
           split at hv
@@ -1027,12 +1040,15 @@ theorem cell_specU (segs : List Nat) (t : SegType) (mfv : Nat) (m arr : Mask) (h
           rw [List.getElem?_eq_getElem hjk] at this
           simp only [Option.some.injEq] at this
           rw [this]; simp
-  | fltLabelF ps ht hr =>
+  | fltLabelF ps ht hr hone =>
     obtain ⟨px, hq, rfl⟩ := plane_fltLabel ps p mpl hmp
-    refine ⟨px.map (quantise mfv), by simp [expectedPlane, ht], ?_, fun h => by rw [ht] at h; cases h⟩
+    have hsj : segs[j] = 1 := by
+      have := seg_index t segs hs (by rw [ht]; intro h; cases h) j hj
+      omega
+    refine ⟨px.map (quantise mfv), by simp [expectedPlane, ht, hsj], ?_, fun h => by rw [ht] at h; cases h⟩
     intro _
     simp only [cellEU, hmp, segPlaneU]
-  | fltLabelB ps ht hbin =>
+  | fltLabelB ps ht hbin _ =>
     obtain ⟨px, hq, rfl⟩ := plane_fltLabel ps p mpl hmp
     have hmem := List.mem_of_getElem? hq
     have harr : (Mask.intLabel (ps.map (·.map ratToNat))).plane? p = some (.intLabel (px.map ratToNat)) := by
@@ -1195,11 +1211,11 @@ theorem arrOK_of_castRel (segs : List Nat) (t : SegType) (n : Nat) (m arr : Mask
     have hn' : ∀ pl ∈ ps, pl.length = n := fun pl hpl => hn _ (List.mem_map.mpr ⟨pl, hpl, rfl⟩)
     obtain ⟨h1, h2⟩ := lab_arrOK segs t hs n ps lab hn' hch hsum hlab
     exact ⟨h1, by simpa [Mask.numPlanes] using h2⟩
-  | fltLabelF ps ht hr =>
+  | fltLabelF ps ht hr _ =>
     refine ⟨⟨ht, ?_⟩, rfl⟩
     intro pl hpl
     exact ⟨hn _ (List.mem_map.mpr ⟨pl, hpl, rfl⟩), hr pl hpl⟩
-  | fltLabelB ps ht hbin =>
+  | fltLabelB ps ht hbin _ =>
     refine ⟨?_, by simp [Mask.numPlanes]⟩
     intro pl hpl
     obtain ⟨pl0, hpl0, rfl⟩ := List.mem_map.mp hpl
